@@ -23,7 +23,7 @@ SITE_CAP = 4      # per (rule, model)
 
 
 def time_limit(tier):
-    return 900 if tier == 'quick' else 5400
+    return common.default_limit(tier)
 
 
 def budget(tier):
